@@ -878,6 +878,8 @@ class Engine:
                 v = self.ev(e.value, st)
                 if isinstance(v, tuple):
                     out.extend(v)
+                elif isinstance(v, V) and isinstance(v.ty, TSeq):
+                    return self.ev_List(n, st)       # (*xs, y) over a symbolic sequence: a tuple of unknown length, modelled as a sequence
                 else:
                     raise OutOfSubset(n, "starred symbolic sequence in tuple display")
             else:
